@@ -63,17 +63,30 @@ def gen_world(rng, tier):
     solvent = [("SOL", 3, ["OW", "HW1", "HW2"]), ("NA", 1, ["NA"])]
     max_mol = 6 if tier == "quick" or rng.random() < 0.7 else 40
     n_mol = rng.randint(0, max_mol)
+    large = rng.random() < (0.015 if tier == "quick" else 0.03)
+    if large:
+        n_mol = rng.randint(250, 700)           # "random longer systems": well over a thousand residues with the solvent
     items = []
     for _ in range(n_mol):
         items.append(("mol", rng.randrange(n_species)))
-    for _ in range(rng.choice([0, 0, 1, 3, 6])):
+    for _ in range(rng.choice([0, 0, 1, 3, 6]) if not large else rng.randint(400, 1300)):
         items.insert(rng.randint(0, len(items)), ("sol", rng.randrange(2)))
+    if not large and items and rng.random() < 0.025:
+        # the first molecules of the file start around a power-of-two residue index (where chunked scans have their seams)
+        prefix = rng.choice([255, 256, 1023, 1024, 1024, 2047]) + rng.randint(-2, 1)
+        items = [("sol", 1)] * prefix + items
     if not items:
         items.append(("sol", 0))
     lines = []
     instances = []     # expected molecules: (species index, names, positions, atomids, resids)
     resid, atomid = 1, 1
+    share = rng.random() < 0.25       # numbering per complex: neighbouring residues of DIFFERENT names may carry one number
+    prev_last_name = None
     for kind, idx in items:
+        first_name = solvent[idx][0] if kind == "sol" else species[idx]["resnames"][0]
+        if share and prev_last_name is not None and first_name != prev_last_name and resid > 1 and rng.random() < 0.6:
+            resid -= 1
+        prev_last_name = solvent[idx][0] if kind == "sol" else species[idx]["resnames"][-1]
         if kind == "sol":
             rn, size, an = solvent[idx]
             for i in range(size):
@@ -92,11 +105,11 @@ def gen_world(rng, tier):
             resid += nres
             atomid += n
     text = gen.gro_text("system " + str(rng.randrange(1000)), lines, [10.0, 10.0, 10.0])
-    return species, text, instances
+    return species, text, instances, large
 
 
 def generate(rng, tier, focus):
-    species, text, instances = gen_world(rng, tier)
+    species, text, instances, large = gen_world(rng, tier)
     present = sorted({i["species"] for i in instances})
     order = list(present)
     rng.shuffle(order)
@@ -105,8 +118,10 @@ def generate(rng, tier, focus):
     ops = []
 
     def observers():
-        for _ in range(rng.randint(0, 3)):
+        for _ in range(rng.randint(0, 3) if not large else rng.randint(0, 1)):
             c = rng.random()
+            if large:
+                c = 0.3 + 0.7 * c          # no full observation between the loads of a large system (one at the end)
             if c < 0.3:
                 ops.append({"op": "observe_all"})
             elif c < 0.55:
@@ -224,7 +239,11 @@ def execute(trace, ctx):
             if m:
                 ctx.violate(P, "iterated-molecule", f"{label}: molecule {k} of the iteration: {m}")
                 return False
-        for k in range(-n, n):
+        ks = range(-n, n)
+        if n > 200:       # large systems: the iteration above covers every molecule; indexing is sampled
+            step = max(1, n // 40)
+            ks = sorted(set(range(-n, -n + 4)) | set(range(-4, 4)) | set(range(n - 4, n)) | set(range(-n, n, step)))
+        for k in ks:
             try:
                 g = system[k]
             except Exception as e:
